@@ -1,6 +1,7 @@
 /- Model driver for the NtpSource state machine (C07–C12, C14, C33): line protocol on stdin/stdout. -/
 import NtpVerif.Basic.LineIO
 import NtpVerif.Model.SourceSM
+import NtpVerif.Model.SourceBytes
 
 open NtpVerif NtpVerif.LineIO NtpVerif.CookieStash NtpVerif.SourceSM
 
@@ -128,6 +129,31 @@ def advertStr (a : Advert) : String :=
 structure DState where
   s : State
   adv : Advert
+  /-- ideal-AEAD table: the sealings performed so far in this case (byte mode) -/
+  table : NtpVerif.Wire.Table := []
+
+/-- names of the record fields on which the model's record (from the bytes) and the harness' record differ -/
+def pktDiff (a b : Option Pkt) : String :=
+  match a, b with
+  | none, none => ""
+  | some _, none => "model=ok,rust=err"
+  | none, some _ => "model=err,rust=ok"
+  | some x, some y =>
+    let fs : List (String × Bool) := [
+      ("v", x.version == y.version), ("m", x.mode == y.mode), ("st", x.stratum == y.stratum), ("pl", x.poll == y.poll),
+      ("kc", x.kiss == y.kiss), ("rid", x.refid == y.refid), ("rts", x.refTs == y.refTs), ("org", x.origin == y.origin),
+      ("ua", x.uidAuth == y.uidAuth), ("ue", x.uidEnc == y.uidEnc), ("uu", x.uidUntr == y.uidUntr),
+      ("an", x.authnak == y.authnak), ("ca", x.cookiesAuth == y.cookiesAuth), ("ce", x.cookiesEnc == y.cookiesEnc),
+      ("cu", x.cookiesUntr == y.cookiesUntr), ("ra", x.rrAuth == y.rrAuth), ("ru", x.rrUntr == y.rrUntr),
+      ("lp", x.leap == y.leap), ("pr", x.precision == y.precision), ("rd", x.rootDelay == y.rootDelay),
+      ("rdp", x.rootDisp == y.rootDisp), ("rx", x.recvTs == y.recvTs), ("tx", x.xmitTs == y.xmitTs)]
+    ",".intercalate ((fs.filter (fun f => !f.2)).map (·.1))
+
+/-- `key;nonce;aad;ct;pt` (hex, `-` = empty) -/
+def seal? (w : String) : Option NtpVerif.Wire.Entry :=
+  match (w.splitOn ";").mapM bytesOfHex? with
+  | some [key, nonce, aad, ct, pt] => some { key := key, nonce := nonce, aad := aad, ct := ct, pt := pt }
+  | _ => none
 
 def dinit : DState :=
   { s := SourceSM.init ⟨⟨4, 10⟩, 16, [], 0⟩ .v4 none, adv := ⟨16, REFID_NONE, []⟩ }
@@ -137,8 +163,31 @@ def stepLine (d : DState) (line : String) : DState × String :=
   match ws with
   | "cfg" :: rest =>
     match parseCfg rest with
-    | some s => ({ d with s := s }, "ok" ++ stateStr s)
+    | some s => ({ d with s := s, table := [] }, "ok" ++ stateStr s)
     | none => (d, "bad-op")
+  | "incomingb" :: rest =>
+    -- byte mode: the record is computed here from the received bytes (parser model + ideal-AEAD table); the
+    -- record the harness computed with the real parser is only cross-checked
+    match kvNat? rest "now", kv? rest "p", kvHex64? rest "sts", kvHex64? rest "rcv", (kv? rest "ba").bind optBool?,
+          kvBytes? rest "bytes", kv? rest "key", kv? rest "seal" with
+    | some now, some p, some sts, some rcv, some ba, some bytes, some key, some sealTxt =>
+      let table? : Option NtpVerif.Wire.Table :=
+        if sealTxt == "-" then some d.table else (seal? sealTxt).map (· :: d.table)
+      let key? : Option (Option (List UInt8)) := if key == "-" then some none else (bytesOfHex? key).map some
+      let rust : Option (Option Pkt) :=
+        if p == "err" then some none else if p == "ok" then (parsePkt rest).map some else none
+      match table?, key?, rust with
+      | some table, some k, some rustRec =>
+        let out := NtpVerif.Wire.parse table.decrypt (NtpVerif.SourceBytes.ctxOf k) bytes
+        let pk := NtpVerif.SourceBytes.recordOfParse out
+        let flag := (match out with
+          | .panic => "model-panic "
+          | .fuel => "model-fuel "
+          | _ => "") ++ (if pk == rustRec then "" else "record-mismatch:" ++ pktDiff pk rustRec ++ " ")
+        let (s', o) := handleIncoming d.s now pk sts rcv ba
+        ({ d with s := s', table := table }, flag ++ inStr o ++ stateStr s')
+      | _, _, _ => (d, "bad-op")
+    | _, _, _, _, _, _, _, _ => (d, "bad-op")
   | "timer" :: rest =>
     match kvNat? rest "now", kvInt? rest "des", kvHex64? rest "org", kvBytes? rest "uid", kvNat? rest "tns" with
     | some now, some des, some org, some uid, some tns =>
